@@ -30,6 +30,7 @@ LEVEL = "model_checking"
 
 CONTENT = {"A": b"AAAA", "B": b"BBBB", "C": b"CCCCCCC"}
 BASE_NS = 1_600_000_000 * 10**9
+UNIT = {"ns": 10**9}      # real nanoseconds per unit of the spec clock; set per replayed behaviour (1 s or 1 ns)
 KNOWN_ID = "C09-mtime-key"
 MODES = ("fn", "task", "pc")
 
@@ -117,18 +118,19 @@ def project(d, paths, labels):
         else:
             s = os.lstat(fp)
             with open(fp, "rb") as f:
-                st[p] = {"c": labels.get(f.read(), "?"), "m": (s.st_mtime_ns - BASE_NS) // 10**9}
+                st[p] = {"c": labels.get(f.read(), "?"), "m": (s.st_mtime_ns - BASE_NS) // UNIT["ns"]}
     return st
 
 
 def stamp(fp, m):
-    t = BASE_NS + m * 10**9
+    t = BASE_NS + m * UNIT["ns"]
     os.utime(fp, ns=(t, t))
 
 
 def replay_behaviour(job):
     """job: {"beh": TLC behaviour, "mode": mode}.  Returns {"steps": [...], "problems": [...]}"""
     beh, mode = job["beh"], job["mode"]
+    UNIT["ns"] = job.get("unit_ns", 10**9)
     d = tempfile.mkdtemp(prefix="verif_c09_")
     keep = {}
     try:
@@ -248,7 +250,7 @@ def judge(ctx, job, res, counts, cap=4):
             continue
         ops = "; ".join(f"{x['op']}({','.join(str(x[k]) for k in ('q', 's', 'p', 'c', 'm') if k in x)})" for x in beh["h"][: s["i"] + 1])
         ctx.judge(False, f"stale file hash [{job['mode']}] after {cls}: {ops} returned H({s['observed']}), content is {s['cur']}",
-                  case={"tlc": beh, "mode": job["mode"], "step": s["i"]},
+                  case={"tlc": beh, "mode": job["mode"], "unit_ns": job.get("unit_ns", 10**9), "step": s["i"]},
                   expected={"digest_of": s["cur"]}, observed={"digest_of": s["observed"]},
                   known_id=KNOWN_ID, asbuilt={"digest_of": s["asbuilt"]})
 
@@ -326,6 +328,8 @@ def run(ctx):
                 "kinds) that ends in a Hash and hashes at least twice; quick replays all of length <= 3 and a seeded sample "
                 "of length 4, thorough all of them plus simulated behaviours of length 5; non-trivial = behaviours in "
                 "which the content of a hashed path changed between two of its hashes")
+    for n, j in enumerate(jobs):          # every second behaviour is replayed with a 1 ns clock unit
+        j["unit_ns"] = 1 if n % 2 else 10**9
     res = core.pmap(replay_behaviour, jobs, chunksize=8)
     counts = {}
     for job, r in zip(jobs, res):
@@ -335,14 +339,14 @@ def run(ctx):
             ctx.nontriv(json.dumps(h, sort_keys=True) + job["mode"])
     ctx.extra["behaviours_replayed"] = len(jobs)
     ctx.extra["stale_digests_by_last_operation_on_the_path"] = counts
-    ctx.assume("mtimes are set explicitly with os.utime (1 unit of the spec clock = 1 s); the resolution of the real file "
+    ctx.assume("mtimes are set explicitly with os.utime (1 unit of the spec clock = 1 s for half of the behaviours and 1 ns for the other half); the resolution of the real file "
                "system is not exercised")
     for j in jobs[:2]:
         ctx.sample({"mode": j["mode"], "ops": [{k: v for k, v in s.items() if k != "st"} for s in j["beh"]["h"]]})
 
 
 def replay(ctx, rec):
-    job = {"beh": rec["case"]["tlc"], "mode": rec["case"]["mode"]}
+    job = {"beh": rec["case"]["tlc"], "mode": rec["case"]["mode"], "unit_ns": rec["case"].get("unit_ns", 10**9)}
     r = replay_behaviour(job)
     print("replayed:", json.dumps(r)[:1000])
     judge(ctx, job, r, {})
